@@ -152,9 +152,11 @@ def run(chk):
                 "types, data set lengths); (b) node order/positions/Depth recomputed from the grid file with the tool's "
                 "arithmetic and connectivity compared with the model Grid.v - Cartesian boxes, 2-D/3-D chunks and the annulus; (c) "
                 "Temperature, velocity, Tag, compositions at every node vs the library through wbprobe at the recomputed position "
-                "(Cartesian, chunk, annulus); (d) filtered / by-tag files: "
+                "(every grid type); (d) filtered / by-tag files: "
                 "exactly the cells whose highest vertex tag is selected, vertex data unchanged; (e) non-Cartesian grids: Depth = "
-                "outer radius - |position|. non-trivial = a grid with at least one node inside a feature")
+                "outer radius - |position|; (f) sphere grids (hollow and full balls, 2-4 cells per block edge): node coordinates and Depth "
+                "as exact binary64 values (RawBinary file of the same grid) and connectivity vs the Gallina model SphereGrid.v, node values vs "
+                "the library at the model's positions. non-trivial = a grid with at least one node inside a feature")
     chk.assumptions = ["VTU XML writing (vtu11) is third-party: checked by parsing, not modelled",
                        "values are compared as printed (6 significant digits)"]
     chk.prove()
